@@ -29,6 +29,11 @@ Theorem header_roundtrip : forall k n rest, n <= U64_MAX ->
   decode_loose_header (loose_header k n ++ rest) = Ok (k, n, length (loose_header k n)).
 Proof. exact L_decode_encode. Qed.
 
+(* no bytes make the header decoder panic (its slice input[kind_end+1..size_end] is never reversed) *)
+Theorem header_decode_never_panics : forall input,
+  decode_loose_header input <> Panic /\ decode_loose_header input <> OutOfFuel.
+Proof. exact L_decode_never_panics. Qed.
+
 (* loose_RT: a file whose stream is complete and inflates to header ++ data reads back as exactly
    (kind, data) — for EVERY size, i.e. on both sides of the 64-byte header buffer, with or without
    bytes behind the stream.  Side conditions: the file is not empty, buffer sizes fit isize and the
